@@ -2,6 +2,7 @@ package gen
 
 import (
 	"fmt"
+	"math"
 
 	"pgregory.net/rapid"
 )
@@ -40,19 +41,19 @@ type Record struct {
 	ISOSecond                                         *uint16 // ISOSpeedRatings has count "any": a second SHORT in the slot (the reported speed is the first)
 	// ISOMore: further values after the first (count 3..5 SHORT, or count 2..3 LONG): the array no longer fits the slot and is stored
 	// out of line; the reported speed is still the first value. StripMore: further strips (offset and byte count arrays of 2..5 entries).
-	ISOMore   []uint32 `json:",omitempty"`
-	StripMore []uint32 `json:",omitempty"`
-	Bias                                              *[2]int32
-	Program, Mode, Metering, Flash                    *uint16
-	FL35                                              *uint16
-	LensSpec                                          *[4][2]uint32
-	LensMake, LensModel, LensSerial                   *string
-	LatRef, LonRef                                    *string // "N"/"S", "E"/"W"
-	Lat, Lon                                          *[3][2]uint32
-	AltRef                                            *uint8
-	Alt                                               *[2]uint32
-	GPSTime                                           *[3][2]uint32
-	GPSDate                                           *string // "YYYY:MM:DD"
+	ISOMore                         []uint32 `json:",omitempty"`
+	StripMore                       []uint32 `json:",omitempty"`
+	Bias                            *[2]int32
+	Program, Mode, Metering, Flash  *uint16
+	FL35                            *uint16
+	LensSpec                        *[4][2]uint32
+	LensMake, LensModel, LensSerial *string
+	LatRef, LonRef                  *string // "N"/"S", "E"/"W"
+	Lat, Lon                        *[3][2]uint32
+	AltRef                          *uint8
+	Alt                             *[2]uint32
+	GPSTime                         *[3][2]uint32
+	GPSDate                         *string // "YYYY:MM:DD"
 	// classification helpers filled by the generator
 	Fields int `json:"fields"`
 }
@@ -70,7 +71,8 @@ type Options struct {
 	Split           bool // also encode IFD0 / Exif / GPS as three separate TIFF blocks (CR3 CMT1/CMT2/CMT4)
 	Unbuffered      bool // file will be read through the unbuffered path: directories <= 85 entries, values <= 1024
 	PlainStrings    bool
-	FirstIFD        int // > 0: offset of IFD0 (the bytes between the TIFF header and it are padding)
+	FirstIFD        int  // > 0: offset of IFD0 (the bytes between the TIFF header and it are padding)
+	CameraBias      bool // exposure compensation the way cameras write it (n/100, n/10, n/6 ... up to +-5 EV: numerators beyond +-127)
 	Arrays          bool // ISOSpeedRatings with 3..5 SHORT / 2..4 LONG values and StripOffsets / StripByteCounts with 2..5 entries (stored out of line; the first value is the reported one)
 	LongText        bool // one or two of ImageDescription / Software / Copyright are 1023..20000 bytes long (around and beyond the readers' 1 KiB / 4 KiB windows)
 	ManyEntries     bool // one directory is filled with embedded-value foreign tags up to (or just below) the entry limit: 128, or 85 with Unbuffered
@@ -347,6 +349,12 @@ func GenRecord(rt *rapid.T, o Options) *Record {
 	}
 	if Chance(rt, "bias?", p) {
 		v := [2]int32{int32(rapid.IntRange(-127, 127).Draw(rt, "bias.n")), int32(rapid.IntRange(1, 127).Draw(rt, "bias.d"))}
+		if o.CameraBias && Chance(rt, "bias.camera", 0.7) {
+			// the way cameras write compensation: steps of 1/3 or 1/2 EV up to +-5 EV over the denominators 1, 2, 3, 6, 10, 100
+			d := int32(rapid.SampledFrom([]int{1, 2, 3, 6, 10, 100}).Draw(rt, "bias.cd"))
+			steps := int32(rapid.IntRange(-30, 30).Draw(rt, "bias.sixths")) // sixths of an EV
+			v = [2]int32{int32(math.Round(float64(steps) * float64(d) / 6)), d}
+		}
 		r.Bias = &v
 	}
 	r.Program = optU16(rt, "program", p, rapid.Uint16Range(0, 9))
